@@ -45,6 +45,9 @@ Complete(g) ==
     /\ cell' = Plus(cell, SpanOf(g))
     /\ st' = [st EXCEPT ![g] = "kept"] /\ UNCHANGED tmp
 
+\* the guard is dropped by a panic unwinding through its scope: the same completion
+CompleteByUnwind(g) == Complete(g)
+
 \* broken variant: get() ... set() with the lock released in between
 Read(g) ==
     /\ Mode = "split" /\ st[g] = "live"
@@ -57,7 +60,7 @@ Discard(g) ==
     /\ st[g] = "live"
     /\ st' = [st EXCEPT ![g] = "discarded"] /\ UNCHANGED <<cell, tmp>>
 
-Next == \E g \in Guards : Complete(g) \/ Read(g) \/ Write(g) \/ Discard(g)
+Next == \E g \in Guards : Complete(g) \/ CompleteByUnwind(g) \/ Read(g) \/ Write(g) \/ Discard(g)
 Spec == Init /\ [][Next]_cvars
 
 RECURSIVE SumSpans(_)
